@@ -10,6 +10,15 @@ fn main() {
 	if args.len() < 2 {
 		usage();
 	}
+	// safety net: a runaway allocation kills this process (attributed to the in-flight
+	// tape by the supervisor) instead of the machine
+	if matches!(args[1].as_str(), "worker" | "replay" | "replay-raw") {
+		let gib: u64 = std::env::var("VERIF_MEM_GIB").ok().and_then(|s| s.parse().ok()).unwrap_or(8);
+		let lim = libc::rlimit { rlim_cur: gib << 30, rlim_max: gib << 30 };
+		unsafe {
+			libc::setrlimit(libc::RLIMIT_AS, &lim);
+		}
+	}
 	let seed: u64 = std::env::var("VERIF_SEED").ok().and_then(|s| s.parse::<i64>().ok()).map(|v| v as u64).unwrap_or(0);
 	match args[1].as_str() {
 		"list" => {
